@@ -6,6 +6,27 @@ from .srcmodel import AnalysisError
 sys.setrecursionlimit(10000)
 
 
+# CPython (3.11+) keeps interpreter frames on a "data stack" made of 16 KiB chunks that are mmap'ed when a call crosses the end of
+# the current chunk and munmap'ed again when it returns across it.  The analyser recurses deeply and calls small functions in hot
+# loops, so some loop always sits on a chunk boundary: 10^5 mmap/munmap pairs per job, each ~0.4 ms on this kind of machine -
+# more time than the analysis itself (measured 54 s vs 8 s for one 3-D job).  A frame with a huge evaluation stack forces one
+# big chunk (the interpreter rounds 4 MiB + a little up to 8 MiB); everything called from inside it lives in the rest of that
+# chunk, so no chunk is allocated or freed while the analysis runs.
+def _holder(f, a, k):
+    return f(*a, **k)
+
+
+try:
+    import types as _types
+    _BIG = _types.FunctionType(_holder.__code__.replace(co_stacksize=(4 * 1024 * 1024) // 8 + 4096), globals())
+except Exception:                      # pragma: no cover - an optimisation only
+    _BIG = _holder
+
+
+def in_big_frame(f, *a, **k):
+    return _BIG(f, a, k)
+
+
 def run_job_once(m, args):
     try:
         return m.job(args)
@@ -31,6 +52,10 @@ def lemmas_of(mod, tier):
 
 
 def run_job(a):
+    return in_big_frame(_run_job_impl, a)
+
+
+def _run_job_impl(a):
     """one job; re-run once per decision sequence when the analysed code branches on a tolerance predicate (interp.JobFork):
     the obligations must hold on every such path, a failure on any path is a failure (its detail names the path)"""
     mod, args = a
